@@ -441,3 +441,48 @@ Proof.
   unfold render_fields, nanos_of, spec_epoch_text. rewrite ts_name_spec.
   destruct (ns =? 0); cbn [negb]; rewrite <- ?app_assoc; reflexivity.
 Qed.
+
+(* ---- C19: the formatter prints, for each item, the field its token names, after the separators of the item before it ---- *)
+Lemma render_token_spec e off f wd it sep txt : weekday e = Some wd -> spec_item_text e off f wd it = Some txt ->
+  render_token e off (Some f) it sep = ROk (match txt with Some x => sep ++ x | None => [] end).
+Proof.
+  intros W. destruct f as [[[[[[y mm] dd] hh] mi] s] ns]. unfold spec_item_text, render_token. rewrite W.
+  unfold TextFmt.T_Year, TextFmt.T_YearShort, TextFmt.T_Month, TextFmt.T_Day, TextFmt.T_Hour, TextFmt.T_Minute, TextFmt.T_Second,
+         TextFmt.T_Subsecond, TextFmt.T_OffsetHours, TextFmt.T_OffsetMinutes, TextFmt.T_Timescale, TextFmt.T_DayOfYearInteger,
+         TextFmt.T_DayOfYear, TextFmt.T_Weekday, TextFmt.T_WeekdayShort, TextFmt.T_WeekdayDecimal, TextFmt.T_MonthName, TextFmt.T_MonthNameShort.
+  set (t := TextFmt.token it).
+  destruct (t =? 0) eqn:E0; [intros [= <-]; reflexivity|]. destruct (t =? 1) eqn:E1; [intros [= <-]; reflexivity|].
+  destruct (t =? 2) eqn:E2; [intros [= <-]; reflexivity|]. destruct (t =? 3) eqn:E3; [intros [= <-]; reflexivity|].
+  destruct (t =? 4) eqn:E4; [intros [= <-]; reflexivity|]. destruct (t =? 5) eqn:E5; [intros [= <-]; reflexivity|].
+  destruct (t =? 6) eqn:E6; [intros [= <-]; reflexivity|].
+  destruct (t =? 7) eqn:E7; [intros [= <-]; destruct (negb (optional it) || (0 <? ns)); reflexivity|].
+  destruct (t =? 8) eqn:E8; [intros [= <-]; reflexivity|].
+  destruct (t =? 9) eqn:E9; [assert (t = 9) by lia; destruct (t =? 10) eqn:X; [lia|]; destruct (t =? 13) eqn:X2; [lia|]; destruct (t =? 14) eqn:X3; [lia|];
+                             destruct (t =? 16) eqn:X4; [lia|]; destruct (t =? 17) eqn:X5; [lia|]; discriminate|].
+  destruct (t =? 10) eqn:E10; [intros [= <-]; destruct (negb (optional it) || negb (ts_eqb (scale e) UTC)); reflexivity|].
+  destruct (t =? 11) eqn:E11; [assert (t = 11) by lia; destruct (t =? 13) eqn:X2; [lia|]; destruct (t =? 14) eqn:X3; [lia|];
+                               destruct (t =? 16) eqn:X4; [lia|]; destruct (t =? 17) eqn:X5; [lia|]; discriminate|].
+  destruct (t =? 12) eqn:E12; [assert (t = 12) by lia; destruct (t =? 13) eqn:X2; [lia|]; destruct (t =? 14) eqn:X3; [lia|];
+                               destruct (t =? 16) eqn:X4; [lia|]; destruct (t =? 17) eqn:X5; [lia|]; discriminate|].
+  destruct (t =? 13) eqn:E13; [intros [= <-]; reflexivity|]. destruct (t =? 14) eqn:E14; [intros [= <-]; reflexivity|].
+  destruct (t =? 15) eqn:E15; [assert (t = 15) by lia; destruct (t =? 16) eqn:X4; [lia|]; destruct (t =? 17) eqn:X5; [lia|]; discriminate|].
+  destruct (t =? 16) eqn:E16; [intros [= <-]; reflexivity|]. destruct (t =? 17) eqn:E17; [intros [= <-]; reflexivity|]. discriminate.
+Qed.
+
+Theorem render_items_spec e off f wd : weekday e = Some wd -> forall items prev out,
+  spec_render_items e off f wd prev items = Some out -> render_items e off (Some f) prev items = ROk out.
+Proof.
+  intros W. induction items as [|it rest IH]; intros prev out H; cbn [spec_render_items render_items] in *.
+  - injection H as <-. reflexivity.
+  - destruct (spec_item_text e off f wd it) as [txt|] eqn:T; [|discriminate].
+    destruct (spec_render_items e off f wd (Some it) rest) as [r|] eqn:R; [|destruct txt; discriminate].
+    rewrite (render_token_spec e off f wd it (write_sep prev) txt W T). cbn [rbind].
+    rewrite (IH (Some it) r R). cbn [rbind].
+    destruct txt as [x|]; injection H as <-; [rewrite app_assoc; reflexivity|reflexivity].
+Qed.
+Theorem formatter_spec e off fmt wd out : weekday e = Some wd -> need_gregorian fmt = true ->
+  spec_render_items e off (compute_gregorian (dur e) (scale e)) wd None fmt = Some out ->
+  formatter_render e off fmt = ROk out.
+Proof.
+  intros W N H. unfold formatter_render. rewrite N. apply (render_items_spec e off _ wd W). exact H.
+Qed.
